@@ -179,6 +179,12 @@ func (d *distinctValue) AddAsString(value any, fieldIdx int) bool {
 		d.buf = strconv.AppendInt(d.buf, v, 10)
 	case float64:
 		d.buf = strconv.AppendFloat(d.buf, v, 'f', -1, 64)
+	// msgpack clients may encode integers unsigned and floats in 32 bits; the
+	// key must read the same as for the same number sent as int64 / float64
+	case uint64:
+		d.buf = strconv.AppendUint(d.buf, v, 10)
+	case float32:
+		d.buf = strconv.AppendFloat(d.buf, float64(v), 'f', -1, 64)
 	case bool:
 		d.buf = strconv.AppendBool(d.buf, v)
 	case nil:
